@@ -27,6 +27,7 @@ def build_scenario_parts(rng, nvars, opes=False, script=False, errors=False):
     sysm = corpus.make_system(rng, natoms=40)
     pool = list(range(1, 39))
     cvs = []
+    pool_abf = rng.sample(range(1, 39), 8)
     kinds = ["distance", "angle", "dihedral", "gyration", "coordNum", "distanceZ", "rmsd", "inertia", "hBond", "dipoleAngle"]
     text = ""
     # every component type appears at least twice, so that two work items of the same type can
@@ -57,6 +58,15 @@ def build_scenario_parts(rng, nvars, opes=False, script=False, errors=False):
     biases += "metadynamics {\n  name m1\n  colvars v0 v1\n  hillWeight 0.3\n  newHillFrequency 2\n  hillWidth 2.0\n  useGrids off\n}\n"
     biases += "histogram {\n  name hist\n  colvars v2\n}\n"
     biases += "harmonicWalls {\n  name w1\n  colvars v3\n  lowerWalls -1.0\n  upperWalls 1.0\n  forceConstant 2.0\n}\n"
+    if not opes and not script:
+        # two two-dimensional ABF biases with projected ABF: each integrates its free-energy surface (conjugate gradient on
+        # its own grid) inside its update, i.e. inside the parallel loop over biases
+        for k in range(4):
+            a, b_ = pool_abf[2 * k], pool_abf[2 * k + 1]
+            text += ("colvar {\n  name p%d\n  width 1.0\n  lowerBoundary 0.0\n  upperBoundary 14.0\n  distance {\n    group1 { atomNumbers %d }\n"
+                     "    group2 { atomNumbers %d }\n  }\n}\n" % (k, a, b_))
+        biases += "abf {\n  name pa\n  colvars p0 p1\n  fullSamples 1\n  pABFintegrateFreq 1\n}\n"
+        biases += "abf {\n  name pb\n  colvars p2 p3\n  fullSamples 1\n  pABFintegrateFreq 1\n}\n"
     if opes:
         biases += "opes_metad {\n  name op\n  colvars v1\n  newHillFrequency 2\n  barrier 5.0\n  gaussianSigma 0.5\n}\n"
     glob_opts = "colvarsTrajFrequency 1\n"
@@ -64,14 +74,17 @@ def build_scenario_parts(rng, nvars, opes=False, script=False, errors=False):
         glob_opts += "scriptedColvarForces on\nscriptingAfterBiases off\n"
     frames = []
     pos = sysm["pos"]
+    fexts = []
     for t in range(13):
         pos = [[x + rng.uniform(-0.12, 0.12) for x in p] for p in pos]
         frames.append(pos)
+        fexts.append([[rng.uniform(-3, 3) for _ in range(3)] for _ in pos])
+    sysm["_fexts"] = fexts
     return sysm, glob_opts + text + biases, frames
 
 
 def scenario(sysm, cfg, frames, smp, prefix, script):
-    s = corpus.scenario_header(sysm, extra="temp 300.0\nsmp %s\nkeepsched on" % smp)
+    s = corpus.scenario_header(sysm, tfmode="same", extra="temp 300.0\nsmp %s\nkeepsched on" % smp)
     if script:
         s += "forcecb v0 0.125\n"
     s += "module\nprefix %s\nconfig <<EOC\n%sEOC\ninit\n" % (prefix, cfg)
@@ -80,7 +93,7 @@ def scenario(sysm, cfg, frames, smp, prefix, script):
             s += 'script ["cv","colvar","v0","cvcflags","0 1 1"]\n'
         if k == 9:
             s += 'script ["cv","colvar","v0","cvcflags","1 1 1"]\n'
-        s += corpus.pos_line(f) + "\nstep\n"
+        s += corpus.pos_line(f) + "\n" + corpus.fext_line(sysm["_fexts"][k]) + "\nstep\n"
     s += "savestr\nendrun\n"
     return s
 
